@@ -84,6 +84,19 @@ def views_harness(eng, sp, inst, desc):
     eng.reachable("transition")
     key = "C14/view"
     n, J, M = desc.n_ops, desc.n_jobs, desc.n_machines
+    # another order of first access on an independent twin: the padded arrays are read BEFORE the list views
+    from job_shop_lib import JobShopInstance as _JSI, Operation as _Op
+
+    twin = _JSI([[_Op(desc.machines[o][0] if len(desc.machines[o]) == 1 else list(desc.machines[o]), desc.dur[o]) for o in job]
+                 for job in desc.jobs])
+    twin.durations_matrix_array
+    twin.machines_matrix_array
+    if [len(r) for r in twin.durations_matrix] != desc.shape or [len(r) for r in twin.machines_matrix] != desc.shape:
+        eng.fail(key + "/list-views-changed-by-reading-the-padded-arrays-first",
+                 f"{[len(r) for r in twin.durations_matrix]} / {[len(r) for r in twin.machines_matrix]} vs {desc.shape}")
+    elif [list(map(lambda x: x if isinstance(x, list) else [x], r)) for r in twin.machines_matrix] != \
+            [[desc.machines[o] for o in job] for job in desc.jobs]:
+        eng.fail(key + "/machines_matrix-after-arrays-first", f"{twin.machines_matrix}")
     ids = [(o.operation_id, o.job_id, o.position_in_job) for job in inst.jobs for o in job]
     if ids != [(k, desc.job_of[k], desc.pos_of[k]) for k in range(n)]:
         eng.fail(key + "/operation-ids-not-dense-job-major", f"{ids}")
@@ -192,6 +205,8 @@ def text_round_trips(eng, desc, durs, meta):
                 f.writelines(lines)
             back = JobShopInstance.from_taillard_file(path, name="text instance", **meta)
             same_instance(eng, desc, back, "text instance", meta, "C14/taillard-round-trip", durs)
+            dotted = JobShopInstance.from_taillard_file(path, name="shop.v2 (rev. 3)", **meta)
+            same_instance(eng, desc, dotted, "shop.v2 (rev. 3)", meta, "C14/taillard-round-trip/explicit-name-with-dots", durs)
             auto = JobShopInstance.from_taillard_file(path)
             if auto.name != os.path.basename(path).split(".")[0]:
                 eng.fail("C14/taillard-round-trip/default-name-is-not-the-file-name", auto.name)
